@@ -4320,6 +4320,15 @@ fn parse_qualifiers<'a>(
         } else {
             Ok((newarg, remainder, qualifier, AnnotationDepth::One))
         }
+    } else if arg == "RECURSIVE" {
+        //recursion without AS TARGET/METADATA qualifier
+        let (newarg, remainder, _) = get_arg(querystring)?;
+        Ok((
+            newarg,
+            remainder,
+            SelectionQualifier::Normal,
+            AnnotationDepth::Max,
+        ))
     } else {
         Ok((
             arg,
